@@ -237,8 +237,22 @@ def make_numpy():
     m.log = _elementwise("log", lambda v: math.log(v) if v > 0 else (float("-inf") if v == 0 else float("nan")))
     m.log2 = _elementwise("log2", lambda v: math.log2(v) if v > 0 else (float("-inf") if v == 0 else float("nan")))
     m.sqrt = _elementwise("sqrt", math.sqrt)
-    m.floor = _elementwise("floor", lambda v: float(math.floor(v)))
-    m.ceil = _elementwise("ceil", lambda v: float(math.ceil(v)))
+    def _sym_floor(v):
+        z = core.zn(v)
+        return v if z3.is_int(z) else core.lift(z3.ToReal(z3.ToInt(z)))
+
+    def _sym_ceil(v):
+        z = core.zn(v)
+        return v if z3.is_int(z) else core.lift(z3.ToReal(-z3.ToInt(-z)))
+
+    def _rounding(name, fc, fs):
+        def g(x, *a, **k):
+            if isinstance(x, Arr):
+                return NDArray(T._uf(lambda v: fs(v) if isinstance(v, Sym) else fc(v), 1)(x.a), dtype="float64")
+            return fs(x) if isinstance(x, Sym) else fc(x)
+        return g
+    m.floor = _rounding("floor", lambda v: float(math.floor(v)), _sym_floor)
+    m.ceil = _rounding("ceil", lambda v: float(math.ceil(v)), _sym_ceil)
     m.round = _elementwise("round", lambda v: float(np.round(float(v))))
     m.around = m.round
     m.sign = _elementwise("sign", lambda v: (v > 0) - (v < 0))
@@ -505,6 +519,28 @@ class DataFrame:
 
     def reset_index(self, drop=False):
         return DataFrame({c: list(self.data[c]) for c in self.columns})
+
+    def sort_values(self, by, **kw):
+        keys = [by] if isinstance(by, str) else list(by)
+        order = []
+        for i in range(len(self)):             # stable insertion sort; symbolic keys fork on comparisons
+            pos = len(order)
+            while pos > 0:
+                j = order[pos - 1]
+                gt = False
+                for k in keys:
+                    a, b = self.data[k][j], self.data[k][i]
+                    if bool(a > b):
+                        gt = True
+                        break
+                    if bool(a < b):
+                        break
+                if gt:
+                    pos -= 1
+                else:
+                    break
+            order.insert(pos, i)
+        return DataFrame({c: [self.data[c][i] for i in order] for c in self.columns})
 
 
 class Series(DataFrame):
